@@ -93,7 +93,12 @@ def unit_rankings_unbounded(model):
         # rank_output[j] is the first index of the block of equal values that contains j
         body = z3.And(a(j) >= 0, a(j) <= z3.ToReal(j), z3.IsInt(a(j)), z3.Select(ts.arr, ai(j)) == z3.Select(ts.arr, j),
                       z3.Or(a(j) == 0, z3.Select(ts.arr, ai(j) - 1) < z3.Select(ts.arr, ai(j))))
-        return z3.And(d.size == k, z3.Implies(k > 0, sv == a(k - 1)), z3.Implies(k == 0, sv == 0),
+        # team_scores is not written by this loop: that it is sorted is carried along, so that the
+        # step VC has it at hand instead of re-deriving it through two quantifier instantiations
+        i2, j2 = z3.Ints("i!s j!s")
+        sorted_ts = z3.ForAll([i2, j2], z3.Implies(z3.And(0 <= i2, i2 <= j2, j2 < ts.length),
+                                                   z3.Select(ts.arr, i2) <= z3.Select(ts.arr, j2)))
+        return z3.And(d.size == k, z3.Implies(k > 0, sv == a(k - 1)), z3.Implies(k == 0, sv == 0), sorted_ts,
                       z3.ForAll([j], z3.Implies(z3.And(j >= 0, j < k), body)))
     specs = {(q, 1): LoopSpec(["team_scores"], inv1), (q, 2): LoopSpec(["s", "rank_output"], inv2)}
     tr = CutLoops(specs)
